@@ -106,9 +106,19 @@ static bool prepare(const glue::Files &files, Prepared &p, Result &r) {
   Theo::MacroApplicationResult res = Theo::apply_macros(p.impl.input, defs, 0);
   p.usable.assign(p.refx.defs.size(), true);
   for (auto &e : res.errors)
-    if (e.t == Theo::ParseError::MACRO_COMPILE_NON_LR)
+    if (e.t == Theo::ParseError::MACRO_COMPILE_NON_LR) {
+      int hits = 0;
       for (size_t m = 0; m < p.refx.defs.size(); m++)
-        if (p.refx.defs[m].line == e.line && p.refx.defs[m].file == e.file) p.usable[m] = false;
+        if (p.refx.defs[m].line == e.line && p.refx.defs[m].file == e.file) {
+          p.usable[m] = false;
+          hits++;
+        }
+      if (hits != 1) {  // several patterns start on that line: the error carries no column, so it cannot be attributed
+        r.discard = true;
+        r.cls("discard:non-LR-error-on-a-shared-line");
+        return false;
+      }
+    }
   p.ok = true;
   return true;
 }
@@ -269,7 +279,7 @@ static glue::Files files_of(const J &c) {
 // ------------------------------------------------------------------------------ generator
 static const char *LIT_ID[] = {"A", "B", "x"};
 static const char *LIT_OP[] = {"!", "?", "+"};
-static const char *LIT_KW[] = {";", ",", "DO", "END", "IF", ":=", "7"};
+static const char *LIT_KW[] = {";", ",", "DO", "END", "IF", ":=", "7", "LOOP", "THEN", "OUT", "(", ")", ":", "GOTO", "STOP"};
 static const char *SLOTS[] = {"<ID>", "<INT>", "<V>", "<ARGS>", "<P>"};
 
 struct MDef {
@@ -302,7 +312,8 @@ static std::string stmt_filler(Tape &t, int depth) {
   }
 }
 static std::string filler(Tape &t, const std::string &slot, int depth) {
-  if (slot == "<ID>") return LIT_ID[t.pick(3)];
+  static const char *IDS[] = {"A", "B", "x", "y1", "y2", "y3", "y4", "y5"};
+  if (slot == "<ID>") return IDS[t.pick(8)];
   if (slot == "<INT>") return std::to_string(t.pick(10));
   if (slot == "<V>") return value_filler(t, depth);
   if (slot == "<ARGS>") {
@@ -319,7 +330,7 @@ static std::string lit(Tape &t) {
   switch (t.weighted({4, 3, 3})) {
     case 0: return LIT_ID[t.pick(2)];
     case 1: return LIT_OP[t.pick(3)];
-    default: return LIT_KW[t.pick(7)];
+    default: return t.chance(1, 4) ? LIT_KW[t.pick(15)] : LIT_KW[t.pick(7)];
   }
 }
 
@@ -332,6 +343,14 @@ static std::vector<MDef> gen_defs(Tape &t, bool divergent_bias) {
     d.prio = PR[t.pick(4)];
     int len = 1 + (int)t.weighted({2, 4, 4, 2, 1});
     int nslots = 0;
+    if (t.chance(1, 12)) {
+      // a long pattern with many single-token slots: insertion indices with two digits ($10, $11, ...)
+      d.pattern.push_back(lit(t));
+      int n = 11 + (int)t.pick(3);
+      for (int k = 0; k < n; k++) d.pattern.push_back(t.chance(1, 3) ? "<INT>" : "<ID>");
+      nslots = n;
+      len = 0;
+    }
     for (int k = 0; k < len; k++) {
       bool last = k == len - 1;
       bool slot = t.chance(k == 0 ? 1 : 2, 4);
@@ -371,15 +390,20 @@ static std::vector<MDef> gen_defs(Tape &t, bool divergent_bias) {
   return defs;
 }
 
-static std::string defs_text(const std::vector<MDef> &defs) {
+// layout: 0 = one definition per line; bit 1 = body on the line after the pattern (bit 4: only for every other
+// definition, so that a pattern and the previous definition's body can share a line); bit 2 = definitions share lines
+static std::string defs_text(const std::vector<MDef> &defs, unsigned layout = 0) {
   std::string s;
-  for (auto &d : defs) {
+  for (size_t i = 0; i < defs.size(); i++) {
+    const MDef &d = defs[i];
     s += "DEFINE ";
     if (d.prio >= 0) s += "PRIO " + std::to_string(d.prio) + " ";
     for (auto &p : d.pattern) s += p + " ";
-    s += "AS ";
+    bool nl = (layout & 1) && (!(layout & 4) || (i % 2) == 0);
+    s += nl ? "AS\n" : "AS ";
     for (auto &b : d.body) s += b + " ";
-    s += "END DEFINE\n";
+    s += "END DEFINE";
+    s += ((layout & 2) && i + 1 < defs.size()) ? " " : "\n";
   }
   return s;
 }
@@ -438,8 +462,9 @@ static void judge_run(const glue::Files &files, int maxk, Result &r, const std::
 }
 
 static void prop_c09(Tape &t, Result &r) {
+  unsigned layout = (unsigned)t.weighted({5, 1, 1, 1});
   std::vector<MDef> defs = gen_defs(t, false);
-  std::string text = defs_text(defs) + gen_stream(t, defs);
+  std::string text = defs_text(defs, layout) + gen_stream(t, defs);
   judge_run(one_file(text), env_int("VERIF_MACRO_STEPS", 6), r, "C09");
 }
 
@@ -496,15 +521,21 @@ static void prop_c10(Tape &t, Result &r) {
   // definitions alternate between two included files, so temporaries are defined on equal line numbers
   glue::Files files;
   std::string d1, d2;
-  for (size_t i = 0; i < defs.size(); i++) (i % 2 ? d2 : d1) += defs_text({defs[i]});
+  unsigned layout = (unsigned)t.weighted({4, 2, 2, 1, 0, 0, 0, 2});  // 7 = body on next line for every other definition + shared lines
+  static const char *LONGDIR =
+      "a very/long/path/with some spaces/and-a-lot-of-characters/so that fixed size buffers overflow/0123456789/0123456789/0123456789/x/";
+  std::string dir = t.chance(1, 5) ? LONGDIR : "";
+  for (size_t i = 0; i < defs.size(); i++) (i % 2 ? d2 : d1) += defs_text({defs[i]}, layout & 1);
   bool two = t.chance(1, 2);
+  if (layout) r.cls("definitions-in-free-layout");
   if (two) {
-    files["d1"] = d1;
-    files["d2"] = d2;
-    files["m"] = "include \"d1\" include \"d2\"\n" + gen_stream(t, defs) + " ; " + gen_stream(t, defs);
+    files[dir + "d1"] = d1;
+    files[dir + "d2"] = d2;
+    files["m"] = "include \"" + dir + "d1\" include \"" + dir + "d2\"\n" + gen_stream(t, defs) + " ; " + gen_stream(t, defs);
+    if (!dir.empty()) r.cls("definitions-in-files-with-long-names");
     r.cls("definitions-in-two-files-on-equal-lines");
   } else
-    files["m"] = defs_text(defs) + gen_stream(t, defs) + " ; " + gen_stream(t, defs);
+    files["m"] = defs_text(defs, layout) + gen_stream(t, defs) + " ; " + gen_stream(t, defs);
   judge_run(files, env_int("VERIF_MACRO_STEPS", 6), r, "C10");
 }
 // long runs: hundreds of expansion steps of temporary-using macros in one apply_macros call. Every step must
